@@ -1173,7 +1173,7 @@ def fault_clauses(mods, ctx, want):
         return list(Ev(ctx['lower'], ctx['upper'], N, s.evolvent.evolventDensity).GetImage(x))
     obs = observe(s)
     out += [('C16 ' + l, c) for l, c in search_info_clauses(obs, prob.done, N, image=fresh_image if (N == 1 and not ctx.get('stub_evolvent')) else None)]
-    if failed:
+    if failed and N == 1:       # for N >= 2 distinct curve coordinates may share an image (same cell): the COUNT clause carries the claim there
         fp = prob.started[len(prob.done)]
         for i, pt in enumerate(obs['points'][1:-1]):
             same = AND(*[EQ(a, b) for a, b in zip(pt, fp)])
